@@ -49,7 +49,7 @@ Proof. induction X as [|r X IH]; simpl.
   - apply Forall_forall. intros c Hc. apply repeat_spec in Hc. subst; reflexivity.
   - apply Forall_map2_cons; auto. Qed.
 (* the composition as coded computes the documented Laplacian for every kind, edge, weights,
-   samplings and every n0 x n1 array whose sides admit the stencil *)
+   samplings and every n0 x n1 array whose sides are large enough for the stencil *)
 Theorem lap2_meets_doc k e w0 w1 s0 s1 n0 n1 (X : arr) :
   length X = n0 -> Forall (fun r => length r = n1) X -> sd_minsize k e <= n0 -> sd_minsize k e <= n1 ->
   lap2_coded k e w0 w1 s0 s1 n0 n1 X = lap2_doc k e w0 w1 s0 s1 n0 n1 X.
